@@ -70,8 +70,10 @@ def estimate_cn(
             for r in gene.unique_regions
         }
         total_cov = sum(r0 + r1 for r0, r1 in region_cov.values())
+        # (both sums run over the copy-number regions only)
         min_cov = min(
-            sum(sum(v.values()) for v in gene.cn_configs[c].cn) for c in gene.cn_configs
+            sum(v.get(r, 0) for v in gene.cn_configs[c].cn for r in gene.unique_regions)
+            for c in gene.cn_configs
         )
         if total_cov < min_cov / 2.0:
             raise AldyException(
